@@ -118,7 +118,7 @@ CONTRACTS = {
         "ensures": {
             "C12.V1 a state is accepted only if its name does not collide with a StateMachine attribute and its signature is (self[, tm][, state_tm][, initial_call]) in any order: no *args/**kwargs/keyword-only, no other names":
                 "not sm_has_attr(f.__name__) and sig_ok(f)",
-            "C12.V2 the record carries the decorator's flags": "self.name == f.__name__ and self.first == first and self.must_finish == must_finish and self.is_default == is_default",
+            "C12.V2 the record carries the decorator's flags and duration": "self.name == f.__name__ and self.first == first and self.must_finish == must_finish and self.is_default == is_default and self.duration == duration",
             "C03.P1 the argument adapter is the evaluation of 'lambda self, tm, state_tm, initial_call: f(<the function's own parameter names, in its own order>)'":
                 f"self.run is not None and self.run.g_code == '{TEMPLATE_HEAD}' + join(',', args) + '{TEMPLATE_TAIL}' and len(args) == len(PARAMS(f)) and forall(j, Int, implies(0 <= j and j < len(args), args[j] == pname(f, j)))",
         },
@@ -127,6 +127,17 @@ CONTRACTS = {
             "C12.V4 ValueError only for an illegal signature": "implies(exc == 'ValueError', not sig_ok(f))",
             "only these two errors": "exc == 'InvalidStateName' or exc == 'ValueError'",
         },
+    },
+    "timed_state.decorator": {
+        "params": {"f": "Ref:PyFunc"}, "closure": {"duration": "Opt[Real]", "next_state": "Opt[StrOr:_State]", "first": "Bool", "must_finish": "Bool"},
+        "returns": "Ref:_State", "returns_fresh": True, "raises": ["InvalidStateName", "ValueError"], "modifies": [],
+        "requires": dict({"a function object": "f is not None"}, **_SIG_WF),
+        "drop_callee_ensures": {"_State.__init__": ["C03.P1"]},
+        "ensures": {"C12.D3 (also C02) @timed_state(duration=d, next_state=n, first=.., must_finish=..) makes a plain state carrying exactly these settings; the successor link is always present (None: last state)":
+                    "result is not None and not result.is_default and result.first == first and result.must_finish == must_finish and result.name == f.__name__ and "
+                    "result.duration == duration and has_attr(result, 'next_state') and result.next_state == next_state"},
+        "ensures_raise": {"only the definition errors of _State": "exc == 'InvalidStateName' or exc == 'ValueError'"},
+        "note": "the inner function of timed_state(...): its free variables are the keyword arguments of the enclosing call (arbitrary values)",
     },
     "default_state": {
         "params": {"f": "Ref:PyFunc"}, "returns": "Ref:_State", "returns_fresh": True, "raises": ["InvalidStateName", "ValueError"], "requires": dict({"a function object": "f is not None"}, **_SIG_WF), "modifies": [],
